@@ -459,6 +459,9 @@ def correspondence(ctx):
     rng = np.random.default_rng(ctx.np_seed)
     specs = all_specs(ctx, rng)
     recs = run_specs(ctx, specs, rng, 3 if ctx.quick() else None)
+    if not ctx.quick():
+        for _ in range(3):      # thorough: four passes over the full option lattice
+            recs += run_specs(ctx, specs, rng, None)
     ops, meta = [], []
     for spec, backend, f32, shp, th, y in recs:
         n = spec.nparam()
@@ -524,6 +527,9 @@ def replay_of(spec, backend, f32, shp, th):
 def probe_constraints(ctx, rng):
     specs = all_specs(ctx, rng)
     recs = run_specs(ctx, specs, rng, 4 if ctx.quick() else None)
+    if not ctx.quick():
+        for _ in range(3):
+            recs += run_specs(ctx, specs, rng, None)
     for spec, backend, f32, shp, th, y in recs:
         tol = PROBE32 if f32 else PROBE64
         n = spec.nparam()
@@ -782,3 +788,18 @@ def search(ctx, hints):
                 for key, ok, what in spec.checks(t, y.astype(np.complex128 if np.iscomplexobj(y) else np.float64), PROBE64):
                     if not ok:
                         ctx.fail(key, f'{spec.key()} ({backend}): {what}', replay_of(spec, backend, False, (), t))
+
+
+def replay(ctx, payload):
+    """re-run the probe with the seed/tier recorded in the replay file and report whether the recorded key fails again"""
+    c2 = common.Ctx(ctx.pid, payload.get('tier', 'quick'), int(payload.get('seed', 0)))
+    probe(c2)
+    hit = [f for f in c2.failures if f['key'] == payload.get('key')]
+    if hit:
+        print(f"replay: {payload.get('key')} still fails: {hit[0]['what']}")
+        import sys
+        path = sys.argv[sys.argv.index('--replay') + 1] if '--replay' in sys.argv else ''
+        print(f'VIOLATION property={ctx.pid} replay={path}')
+        return 1
+    print(f"replay: {payload.get('key')} no longer fails ({c2.probe_evals} probe evaluations)")
+    return 0
